@@ -18,7 +18,10 @@ use std::{
 
 use serde_json::{json, Map, Value};
 
-pub const VERIF: &str = "/verif";
+/// root of the verification tree (the directory holding `check`); `VERIF_ROOT` is exported by ./check
+pub fn verif_root() -> String {
+	std::env::var("VERIF_ROOT").unwrap_or_else(|_| "/verif".to_owned())
+}
 
 #[derive(Clone, Copy, PartialEq, Eq, Debug)]
 pub enum Tier {
@@ -191,7 +194,7 @@ pub struct KnownFinding {
 }
 pub fn load_known_findings() -> Vec<KnownFinding> {
 	let mut out = Vec::new();
-	let Ok(text) = fs::read_to_string(format!("{VERIF}/KNOWN_FINDINGS.txt")) else {
+	let Ok(text) = fs::read_to_string(format!("{}/KNOWN_FINDINGS.txt", verif_root())) else {
 		return out;
 	};
 	for line in text.lines() {
@@ -254,7 +257,7 @@ impl PartSpec {
 }
 
 pub fn scratch_dir() -> PathBuf {
-	let p = PathBuf::from(format!("{VERIF}/target/scratch/{}", std::process::id()));
+	let p = PathBuf::from(format!("{}/target/scratch/{}", verif_root(), std::process::id()));
 	fs::create_dir_all(&p).expect("scratch");
 	p
 }
@@ -568,7 +571,7 @@ pub fn coordinate(spec: CheckSpec, tier: Tier) -> i32 {
 	let stale: Vec<String> = known.iter().filter(|k| !known_seen.contains(&k.class)).map(|k| k.class.clone()).collect();
 
 	// Confirm and write replay artefacts
-	let replays = PathBuf::from(format!("{VERIF}/replays"));
+	let replays = PathBuf::from(format!("{}/replays", verif_root()));
 	fs::create_dir_all(&replays).expect("replays dir");
 	violation_lines = 0;
 	// simplest witnesses first; only the first few classes are confirmed by fresh-process replays
@@ -645,7 +648,7 @@ pub fn coordinate(spec: CheckSpec, tier: Tier) -> i32 {
 		"wall_s": (wall * 1000.0).round() / 1000.0,
 		"violations": violation_lines,
 	});
-	let evdir = PathBuf::from(format!("{VERIF}/evidence"));
+	let evdir = PathBuf::from(format!("{}/evidence", verif_root()));
 	fs::create_dir_all(&evdir).expect("evidence dir");
 	fs::write(evdir.join(format!("{}.json", spec.property)), serde_json::to_string_pretty(&evidence).unwrap() + "\n").expect("write evidence");
 	let _ = fs::remove_dir_all(&dir);
